@@ -1144,6 +1144,7 @@ Proof.
   - (* v2 *)
     destruct (v2_check (h_nb h) b t); [now apply wf_register|exact Wexp].
   - (* internal *)
+    destruct (N.eqb tok 4); [exact Wexp|].
     destruct (throttled h (c_addr cn) ACT_INTERNAL); [exact Wexp|].
     destruct (negb (N.eqb tok 0)).
     { cbn [fst]. apply wf_set_conn_nosess; [|reflexivity]. eapply wf_equiv; [apply equiv_fail|exact W]. }
